@@ -378,4 +378,6 @@ def run(ctx):
   r6_subgraph_index(ctx)
   r7_metrics(ctx)
   r9_validation_simulation(ctx)
+  from sa.rules import c10  # pylint: disable=g-import-not-at-top
+  c10.r9_signature_subgraph_table(ctx, 'C18.R10')
   shared.rule_single_traversal(ctx, 'C18.R8', ['quantizer:Quantizer.validate', 'model_validator:compare_model'])
